@@ -92,8 +92,8 @@ def must_precede(fx, A, B, rule, what, crates=None, cfgname="A", direct_only=Fal
         for n, (bb, tb, hb) in enumerate(pb):
             if bb not in cfg.reachable():
                 continue
-            doms = [ba for (ba, ta, ha) in pa if ba != bb and cfg.dominates(ba, bb)]
-            ok = bool(doms)
+            cands = [ba for (ba, ta, ha) in pa if ba != bb]
+            ok = bool(cands) and cfg.set_dominates(cands, bb)
             key = mkkey(rule, f.path, "must_precede", n, what)
             obs.append(Ob(rule, key, ok, q.loc_of(tb), f.path,
                           "%s: %s at %s is %sdominated by %s" % (what, _nm(tb), q.loc_of(tb), "" if ok else "NOT ",
